@@ -502,8 +502,16 @@ func toFloatPair(x, y any) (float64, float64, bool) {
 func toInt(v any) (int, bool, bool) {
 	switch v := v.(type) {
 	case decimal128.Decimal:
+		if v.IsNaN() {
+			return 0, true, false
+		}
+
 		i, ok := v.Int64()
 		if !ok {
+			return 0, true, false
+		}
+
+		if !decimal128.FromInt64(i).Equal(v) {
 			return 0, true, false
 		}
 
@@ -515,6 +523,10 @@ func toInt(v any) (int, bool, bool) {
 	case json.Number:
 		i, err := v.Int64()
 		if err != nil {
+			if d, err := decimal128.Parse(v.String()); err == nil {
+				return toInt(d)
+			}
+
 			if _, err = v.Float64(); err != nil {
 				return 0, false, false
 			}
